@@ -228,3 +228,18 @@ def lf_stream(rng, n_pairs=300):
     for t in ["%* it's a;quote';", "%*\"a;b\";", "* it's;", "%put 'a b';", "%let a='x y';", "%m('a b')", "%str('a b')", "/* 'a */"]:
         out += lf_everywhere(t)
     return out
+
+
+SMALL_CONTEXTS = ["%eval(", "%m(", "%str(", "\"", "%let a=", "%if ", "%sysevalf(", "%macro m(", "%put ", "%do i=1 %to ", ""]
+SMALL_ATOMS = ["a", " ", "%", ")", "(", ",", "=", "&x", "%n", "%str(", "\"", "'", ";", "1", "eq", "\n", "/*c*/", "%*c;", "+", "."]
+
+
+def small_context_exhaustive(k, rng=None, limit=None):
+    import itertools
+    out = []
+    for c in SMALL_CONTEXTS:
+        for combo in itertools.product(SMALL_ATOMS, repeat=k):
+            out.append(c + "".join(combo))
+    if limit and len(out) > limit and rng is not None:
+        out = [out[rng.below(len(out))] for _ in range(limit)]
+    return out
